@@ -84,7 +84,7 @@ def finish(
     known = load_known()
     analysis_errors = list(analysis_errors or [])
     for r in reports:
-        if len(r.instances) < r.floor:
+        if len(r.instances) < r.floor and not any(not getattr(f_, "info_only", False) for f_ in r.findings):
             analysis_errors.append(
                 f'{r.rule}: only {len(r.instances)} instances found, hand-confirmed floor is {r.floor} '
                 f'(rule would pass vacuously)'
